@@ -395,6 +395,12 @@ JudgeBigLcm(c, o) ==
                                 rhs == MulMod(t[2], MulMod(BigQ(c, p), BigR(c, p), p), p)
                             IN lhs = (IF sg = 1 THEN rhs ELSE (p - rhs) % p)
          IN IF Holds(1) \/ Holds(-1) THEN "OK" ELSE "lcm-wrong"
-\* does the exact product of the operands need more than the 53 bits of a float
-BeyondFloat(c) == c.k >= 50
+\* is the lcm (2^k + a) * (|sm| / gcd) at least 2^53, i.e. beyond the integers a float holds
+\* exactly (|a|, |sm| <= LIMIT < 2^15: below k = 38 it never is, from k = 53 on it always is, in
+\* between |a| * m < 2^k decides it by comparing m = |sm| / gcd with 2^(53 - k))
+BeyondFloat(c) ==
+    IF c.k >= 53 THEN TRUE ELSE IF c.k < 38 THEN FALSE
+    ELSE LET m == Abs(c.sm) \div BigGcd(c)
+             t == PowMod(2, 53 - c.k, MAXP)          \* 2^(53-k) <= 2^15 < MAXP
+         IN m > t \/ (m = t /\ c.a >= 0)
 =============================================================================
